@@ -31,7 +31,7 @@ fn viol(rep: &mut Report, role: &str, what: &str, detail: String, w: J) {
 }
 
 /// Checks the endpoint's control stream bytes.
-fn check_control(rep: &mut Report, role: &str, uni: &BTreeMap<u64, StreamRec>) {
+fn check_control(rep: &mut Report, role: &str, uni: &BTreeMap<u64, StreamRec>, endpoint_keeps_connection: bool) {
     let mut control_streams = 0;
     for (id, r) in uni {
         let Some((ty, tl)) = rv::decode(&r.data) else {
@@ -50,7 +50,9 @@ fn check_control(rep: &mut Report, role: &str, uni: &BTreeMap<u64, StreamRec>) {
                         f
                     }
                 };
-                if r.fin || r.reset.is_some() {
+                // (when the application has already dropped the connection — a refused session —
+                // the streams are torn down together with it; that is not a statement on the wire format)
+                if endpoint_keeps_connection && (r.fin || r.reset.is_some()) {
                     viol(rep, role, "control-stream-closed", "endpoint closed its own control stream".into(), J::Null);
                 }
                 match frames.first() {
@@ -333,7 +335,7 @@ async fn server_role_case(seed: u64, burn: usize, decision: Decision, window: Op
             viol(rep, role, "alpn", format!("negotiated ALPN {:?}", hd.protocol), J::Null);
         }
     }
-    check_control(rep, role, &peer.uni_snapshot());
+    check_control(rep, role, &peer.uni_snapshot(), conn.is_some());
     // response
     let mut want = BTreeMap::new();
     let status = match &decision {
@@ -426,7 +428,7 @@ async fn client_role_case(seed: u64, idx: u64, window: Option<u32>, rep: &mut Re
             viol(rep, role, "alpn", format!("negotiated ALPN {:?}", hd.protocol), J::Null);
         }
     }
-    check_control(rep, role, &peer.uni_snapshot());
+    check_control(rep, role, &peer.uni_snapshot(), true);
     let want = genreq::expected_map(&req);
     match frames.iter().find(|f| f.ty == h3::FRAME_HEADERS) {
         Some(f) => check_section(rep, role, &f.payload, &want, "request"),
